@@ -207,7 +207,7 @@ def build_case(spec):
         import numpy
         params = {k: ((int(v) if pt == 'int' and float(v).is_integer() else numpy.float64(v) if pt == 'np' else v) if isinstance(v, float) else v)
                   for k, v in params.items()}
-    return dict(prior_other=spec.get('prior_other'), sticky=spec.get('sticky', 0.0), strlabels=spec.get('strlabels', False), history=spec.get('history', []), fixed_proto=spec.get('fixed_proto', False), preattr=spec.get('preattr'), procs_json=procs, build=build, dyn=spec['dyn'], nodes=spec['nodes'], edges=[tuple(e) for e in spec['edges']], maxT=spec['maxT'],
+    return dict(maxevents=spec.get('maxevents', 400), prior_other=spec.get('prior_other'), sticky=spec.get('sticky', 0.0), strlabels=spec.get('strlabels', False), history=spec.get('history', []), fixed_proto=spec.get('fixed_proto', False), preattr=spec.get('preattr'), procs_json=procs, build=build, dyn=spec['dyn'], nodes=spec['nodes'], edges=[tuple(e) for e in spec['edges']], maxT=spec['maxT'],
                 seed=spec['seed'], params=params, specials=spec.get('specials', ()), pspecial=spec.get('pspecial', 0.0),
                 oracles=[ORACLES[o] for o in spec.get('oracles', [])], finals=[FINALS[o] for o in spec.get('oracles', []) if o in FINALS])
 
@@ -788,6 +788,20 @@ def gen_rates(rnd, dyn='sto'):
     ps = sorted({p for (_, p, _) in perel + fixed if 0 < p < 1})
     return dict(procs=[dict(cls='Script', name=None, spec=sp)], seq='bare', dyn=dyn, nodes=nodes, edges=edges,
                 maxT=rnd.choice([2.0, 4.0, 8.0]), seed=rnd.random(), specials=ps, pspecial=0.25, oracles=['clock', 'member', 'loci'])
+
+
+def gen_bigloci(rnd, dyn='syn'):
+    """loci of a few hundred elements (every other generated network has fewer than ten nodes): one or two steps of a shipped model on
+    250-330 nodes, most of them infected, a handful of edges"""
+    cls = rnd.choice(['SIR', 'SIS'])
+    n = rnd.randint(258, 330)
+    nodes = list(range(n)); rnd.shuffle(nodes)
+    edges = [[rnd.randrange(n), rnd.randrange(n)] for _ in range(rnd.randint(0, 6))]
+    edges = [e for e in edges if e[0] != e[1]]
+    P = SIR if cls == 'SIR' else SIS
+    params = {P.P_INFECTED: 1.0, P.P_INFECT: 0.5, (SIR.P_REMOVE if cls == 'SIR' else SIS.P_RECOVER): rnd.choice([0.5, 1.0, 0.03125])}
+    return dict(procs=[dict(cls=cls, name=None, params=params)], seq='bare', dyn=dyn, nodes=nodes, edges=edges, maxT=2.0, seed=rnd.random(),
+                specials=[0.5], pspecial=0.05, oracles=['clock', 'member'], maxevents=800)
 
 
 def gen_adaptive(rnd, dyn=None):
